@@ -8,6 +8,17 @@ CLAIMS = {
     ),
 }
 
+CLAIMS["C01"] = dict(
+    text="Coq theorem stft_stream_eq_full: for every configuration with 0 < shift <= length (causal, centered, kaldi_shift), every sample type and EVERY list of chunks (empty and single-sample chunks included), compute_chunk* then finalize hands the per-frame routine exactly the frames compute_full does (so features are bit-identical); corollaries for any two chunkings and for frame_by_frame_calculation with any chunk_size > 0. Proved by an explicit invariant over the buffer / remainder / first-frame state (coq/Stft/Stream.v), closed under the global context. The short-integration half is proved in coq/C03 when that development is present.",
+    note="Trusted: Coq kernel; the hand-written model coq/Stft/Model.v of the framing logic and of NumPy slicing / symmetric padding (tied to the code by a correspondence that compares, inside Coq, the exact frames captured from the implementation on index-coded signals over random and exhaustive chunkings); the per-frame routine is a pure function of the frame; float round-off not modelled.",
+    technique="Coq proof by invariant/refinement over all chunk lists on a hand-written executable model + vm_compute correspondence with the implementation",
+)
+CLAIMS["C04"] = dict(
+    text="Coq theorems over ALL histories of compute_chunk / finalize / compute_full / frame_by_frame_calculation on one STFT instance with arbitrary stale buffer contents: after any idle point the outputs of any further operations equal those of a fresh instance (stale cells are never read), started is a fold of the history (true exactly from a chunk to the next finalize), mid-utterance compute_full / frame_by_frame_calculation are refused and leave the state untouched. Closed under the global context.",
+    note="Trusted: Coq kernel; model coq/Stft/Model.v tied by correspondence of random histories (outputs, exception kind, started after every call). The short-integration computer and the no-mutation / read-only-input clause are covered by the differential fresh-twin comparison only (bit-for-bit), not by proof.",
+    technique="Coq proof (relational invariant over operation histories) + vm_compute correspondence + fresh-twin differential oracle",
+)
+
 _PENDING = "check not built yet in this round (planned, see DESIGN.md section 4); not claimed until its proof and tie exist"
 NOT_APPLICABLE = {
     "C%02d" % i: _PENDING for i in range(1, 21) if "C%02d" % i not in CLAIMS
